@@ -2,6 +2,7 @@ package gen
 
 import (
 	"fmt"
+	"google.golang.org/protobuf/proto"
 	"reflect"
 	"sort"
 	"strings"
@@ -158,5 +159,35 @@ func snapCap(sb *strings.Builder, v reflect.Value, seen map[uintptr]bool, depth 
 		fmt.Fprintf(sb, "%q", v.String())
 	default:
 		fmt.Fprintf(sb, "%v", v.Interface())
+	}
+}
+
+// AllocateEmpty replaces every nil slice and nil map field of the message struct (top level) by an allocated,
+// empty one - the form constructors (NewNode), copies and results of earlier operations have. Content-wise nothing
+// changes; code that asks "is it nil?" instead of "is it empty?" tells the two apart.
+func AllocateEmpty(m proto.Message) {
+	v := reflect.ValueOf(m)
+	if v.Kind() != reflect.Ptr || v.IsNil() {
+		return
+	}
+	s := v.Elem()
+	if s.Kind() != reflect.Struct {
+		return
+	}
+	for i := 0; i < s.NumField(); i++ {
+		f := s.Field(i)
+		if !f.CanSet() {
+			continue
+		}
+		switch f.Kind() {
+		case reflect.Slice:
+			if f.IsNil() {
+				f.Set(reflect.MakeSlice(f.Type(), 0, 0))
+			}
+		case reflect.Map:
+			if f.IsNil() {
+				f.Set(reflect.MakeMap(f.Type()))
+			}
+		}
 	}
 }
